@@ -141,6 +141,11 @@ func vfGenHistory(rng *verifrt.Rand, emph string) *vfHistory {
 		}
 		if rng.Chance(30) || emph == "kill" {
 			s.Subs = []int{rng.Intn(2)}
+			if rng.Chance(40) {
+				extra := 2 + rng.Intn(3)
+				s.Subs = append(s.Subs, extra)
+				s.UnsubAtLaunch = []int{extra}
+			}
 		}
 		if rng.Chance(15) || (emph == "life" && rng.Chance(40)) {
 			s.BecomeAt = 1 + rng.Intn(3)
